@@ -85,7 +85,8 @@ pub enum B {
 pub struct Step {
     pub k: K,
     /// bit 0 controls, bit 1 timeout (10 ms), bit 2 search options, bit 3 controls given as an
-    /// empty list, bit 4 timeout Duration::MAX, bit 5 controls set twice (the second call counts)
+    /// empty list, bit 4 timeout Duration::MAX, bit 5 controls set twice (the second call counts), bit 6
+    /// timeout Duration::ZERO (times out at once, whatever the server does)
     pub mods: u8,
     pub b: B,
 }
@@ -165,6 +166,9 @@ async fn run_async(ldap: &mut ldap3::Ldap, seq: &[Step], out: &mut Vec<String>) 
         if s.mods & 8 != 0 {
             ldap.with_controls(Vec::<RawControl>::new());
         }
+        if s.mods & 64 != 0 {
+            ldap.with_timeout(Duration::ZERO);
+        }
         if s.mods & 16 != 0 {
             ldap.with_timeout(Duration::MAX);
         }
@@ -240,6 +244,9 @@ fn run_sync(conn: &mut LdapConn, seq: &[Step], now: &dyn Fn() -> u128, out: &mut
         }
         if s.mods & 8 != 0 {
             conn.with_controls(Vec::<RawControl>::new());
+        }
+        if s.mods & 64 != 0 {
+            conn.with_timeout(Duration::ZERO);
         }
         if s.mods & 16 != 0 {
             conn.with_timeout(Duration::MAX);
@@ -352,7 +359,7 @@ fn exec_sync(seq: &[Step]) -> (Vec<String>, Vec<String>) {
 
 fn valid(s: &Step) -> bool {
     // a silent server needs a timeout on that very operation (otherwise the blocking API blocks forever)
-    if s.b == B::Silent && (s.mods & 2 == 0 || !carries_marker(s.k) || matches!(s.k, K::Search | K::Stream | K::StreamEntriesOnly | K::StreamPaged | K::StreamEarlyResult | K::SearchMany | K::StreamMany)) {
+    if s.b == B::Silent && (s.mods & 66 == 0 || !carries_marker(s.k) || matches!(s.k, K::Search | K::Stream | K::StreamEntriesOnly | K::StreamPaged | K::StreamEarlyResult | K::SearchMany | K::StreamMany)) {
         return false;
     }
     if s.b != B::Ok && !carries_marker(s.k) {
@@ -361,15 +368,21 @@ fn valid(s: &Step) -> bool {
     if !has_request(s.k) && s.mods != 0 {
         return false;
     }
+    // an Unbind that gives up at once leaves the driver's shutdown racing with the next call
+    if s.k == K::Unbind && s.mods & 64 != 0 {
+        return false;
+    }
     true
 }
 
 fn steps(tier: Tier) -> Vec<Step> {
     let mut v = vec![];
     for k in KINDS {
-        for mods in [0u8, 1, 2, 3, 4, 5, 6, 7, 8, 14, 16, 21, 32, 36] {
+        for mods in [0u8, 1, 2, 3, 4, 5, 6, 7, 8, 14, 16, 21, 32, 36, 64, 69] {
             for b in [B::Ok, B::NoSuchObject, B::Silent, B::Disconnect] {
-                if mods >= 8 && b != B::Ok {
+                // (a zero timeout returns before the request is written: a server which hangs up on reading
+                // it does so while the next step is already under way, a race the reactive server cannot hide)
+                if (mods >= 8 && mods < 64 && b != B::Ok) || (mods >= 64 && b == B::Disconnect) {
                     continue;
                 }
                 let s = Step { k, mods, b };
@@ -377,7 +390,7 @@ fn steps(tier: Tier) -> Vec<Step> {
                     continue;
                 }
                 // quick: error behaviours only with the plain and the all-modifier variants
-                if tier == Tier::Quick && b != B::Ok && !(mods == 0 || mods == 7 || (b == B::Silent && mods == 2)) {
+                if tier == Tier::Quick && b != B::Ok && !(mods == 0 || mods == 7 || (b == B::Silent && (mods == 2 || mods == 64))) {
                     continue;
                 }
                 v.push(s);
@@ -387,11 +400,58 @@ fn steps(tier: Tier) -> Vec<Step> {
     v
 }
 
+const HANG_SECS: u64 = 30;
+static INFLIGHT: std::sync::Mutex<std::collections::BTreeMap<usize, (std::time::Instant, Vec<Step>)>> = std::sync::Mutex::new(std::collections::BTreeMap::new());
+static NEXT_SLOT: std::sync::atomic::AtomicUsize = std::sync::atomic::AtomicUsize::new(0);
+thread_local! {
+    static SLOT: usize = NEXT_SLOT.fetch_add(1, Ordering::Relaxed);
+}
+
+/// what a worker thread is executing, for the watchdog
+struct Beat(usize);
+
+impl Beat {
+    fn start(seq: &[Step]) -> Beat {
+        let slot = SLOT.with(|s| *s);
+        INFLIGHT.lock().unwrap().insert(slot, (std::time::Instant::now(), seq.to_vec()));
+        Beat(slot)
+    }
+}
+
+impl Drop for Beat {
+    fn drop(&mut self) {
+        INFLIGHT.lock().unwrap().remove(&self.0);
+    }
+}
+
+/// An execution which does not come back cannot be interrupted (the blocking API blocks): the
+/// watchdog reports it, writes the evidence with what has been covered so far and ends the run.
+fn watchdog(rep: &'static Reporter, evals: &'static AtomicU64) {
+    std::thread::spawn(move || loop {
+        std::thread::sleep(Duration::from_secs(1));
+        let stuck: Vec<Vec<Step>> = INFLIGHT.lock().unwrap().values().filter(|(t, _)| t.elapsed().as_secs() >= HANG_SECS).map(|(_, s)| s.clone()).collect();
+        if stuck.is_empty() {
+            continue;
+        }
+        for seq in &stuck {
+            rep.violation(
+                "sync:hangs",
+                &format!("sequence {:?}: one of the two executions (Ldap, then LdapConn) has not come back after {} s of wall-clock time; every step is bounded by its own timeout or by the server's answer", seq, HANG_SECS),
+                json!({"engine":"c14","sequence":format!("{:?}", seq)}),
+            );
+        }
+        let c = cov(vec![("evaluations", json!(evals.load(Ordering::Relaxed))), ("exhaustive", json!(false)), ("rule", json!("run ended by the watchdog: an execution did not return"))]);
+        let rc = rep.finish("exploration", c, vec![]);
+        std::process::exit(if rc == 0 { 1 } else { rc });
+    });
+}
+
 fn judge(rep: &Reporter, seq: &[Step], evals: &AtomicU64) {
     evals.fetch_add(1, Ordering::Relaxed);
     let replay = || json!({"engine":"c14","sequence":format!("{:?}", seq)});
     let s1 = seq.to_vec();
     let s2 = seq.to_vec();
+    let _beat = Beat::start(seq);
     let a = catch(move || exec_async(&s1));
     let b = catch(move || exec_sync(&s2));
     match (a, b) {
@@ -478,12 +538,13 @@ fn strip_ms(v: &[String]) -> Vec<String> {
 }
 
 pub fn run(tier: Tier) -> i32 {
-    let rep = Reporter::new("C14", tier);
+    let rep: &'static Reporter = Box::leak(Box::new(Reporter::new("C14", tier)));
     // the bounds that used to be the thorough tier's are cheap enough for every run
     let deep = tier == Tier::Thorough;
     let tier = Tier::Thorough;
     let _ = deep;
-    let evals = AtomicU64::new(0);
+    let evals: &'static AtomicU64 = Box::leak(Box::new(AtomicU64::new(0)));
+    watchdog(rep, evals);
     let st = steps(tier);
     let n = st.len() as u64;
     par_for(n, |i| judge(&rep, &[st[i as usize]], &evals));
@@ -512,7 +573,7 @@ pub fn run(tier: Tier) -> i32 {
     let mut real = 0u64;
     // (a 10 ms timeout on a real socket is a race against the server thread unless the server is
     // silent on purpose: steps that are answered run without the timeout modifier here)
-    for s in st.iter().filter(|s| s.b != B::Disconnect && (s.b != B::Silent || s.mods == 2) && (s.b == B::Silent || s.mods & 2 == 0)) {
+    for s in st.iter().filter(|s| s.mods & 64 == 0 && s.b != B::Disconnect && (s.b != B::Silent || s.mods == 2) && (s.b == B::Silent || s.mods & 2 == 0)) {
         // after an unbind the order in which the peer's close and the next request are noticed
         // depends on OS timing, so unbind goes last on the real socket
         let seq = if s.k == K::Unbind {
